@@ -101,14 +101,17 @@ Outcome(a) == IF cancelled[a] THEN 3 ELSE 2
 RECURSIVE Deliver(_, _)
 Deliver(s, q) == IF q = <<>> THEN s ELSE Deliver([s EXCEPT ![Head(q)] = Outcome(Head(q))], Tail(q))
 InSeq(q, a) == \E i \in 1..Len(q) : q[i] = a
+\* deliver the completions in q (all of them were scheduled onto t's context) and park at the op number i
+DrainDispatch(t, i, q) ==
+  LET s2 == Deliver(st, q)
+      d == Dispatch(t, i, s2) IN
+  /\ st' = s2 /\ pc' = [pc EXCEPT ![t] = d[1]] /\ ip' = [ip EXCEPT ![t] = d[2]]
+  /\ doneBy' = [a \in Att |-> IF InSeq(q, a) THEN t ELSE doneBy[a]]
+  /\ owned' = [a \in Att |-> owned[a] \/ (InSeq(q, a) /\ ~cancelled[a])]
+  /\ cnt' = [a \in Att |-> cnt[a] + IF InSeq(q, a) THEN 1 ELSE 0]
+  /\ sq' = IF q = <<>> THEN sq ELSE [sq EXCEPT ![t] = <<>>]
 HWait(t) == /\ pc[t] = "h.wait" /\ (st[OpA(t)] # 1 \/ sq[t] # <<>>)
-            /\ LET s2 == Deliver(st, sq[t])
-                    d == Dispatch(t, ip[t], s2) IN
-               /\ st' = s2 /\ pc' = [pc EXCEPT ![t] = d[1]] /\ ip' = [ip EXCEPT ![t] = d[2]]
-               /\ doneBy' = [a \in Att |-> IF InSeq(sq[t], a) THEN t ELSE doneBy[a]]
-               /\ owned' = [a \in Att |-> owned[a] \/ (InSeq(sq[t], a) /\ ~cancelled[a])]
-               /\ cnt' = [a \in Att |-> cnt[a] + IF InSeq(sq[t], a) THEN 1 ELSE 0]
-            /\ sq' = [sq EXCEPT ![t] = <<>>]
+            /\ DrainDispatch(t, ip[t], sq[t])
             /\ UNCHANGED <<Mutex, Canc, Stops, Loc, ended, pushSeq, popSeq>>
 HUnlock(t) == /\ pc[t] = "h.unlock"                     \* unlock() = process_queue()
               /\ st' = [st EXCEPT ![OpA(t)] = 4] /\ ret' = [ret EXCEPT ![t] = "_opEnd"] /\ Go(t, "v2.pop")
@@ -121,10 +124,13 @@ HStop(t) == /\ pc[t] = "h.stop"
                THEN /\ cbBy' = [cbBy EXCEPT ![OpA(t)] = t] /\ reg' = [reg EXCEPT ![OpA(t)] = "running"] /\ Go(t, "c.stopped")
                ELSE /\ UNCHANGED <<cbBy, reg>> /\ Go(t, "_opEnd")
             /\ UNCHANGED <<Mutex, Canc, Loc, Hist>>
+\* the current op is finished.  A thread that arrives at "wait for my attempt" first delivers what is already queued on
+\* its context (harness: while (st == 1) { if (!drainOwn()) SPIN; }), in the same stretch
 OpEnd(t) == /\ pc[t] = "_opEnd"
             /\ ended' = IF OpK(t) = "lock" THEN [ended EXCEPT ![OpA(t)] = TRUE] ELSE ended
-            /\ LET d == Dispatch(t, ip[t] + 1, st) IN pc' = [pc EXCEPT ![t] = d[1]] /\ ip' = [ip EXCEPT ![t] = d[2]]
-            /\ UNCHANGED <<Mutex, Canc, Stops, Loc, st, cnt, owned, pushSeq, popSeq>>
+            /\ LET d0 == Dispatch(t, ip[t] + 1, st) IN
+               DrainDispatch(t, d0[2], IF d0[1] = "h.wait" THEN sq[t] ELSE <<>>)
+            /\ UNCHANGED <<Mutex, Canc, Stops, Loc, pushSeq, popSeq>>
 
 \* ------------------------------------------------------------ cancellable<..., StopsEarly>::type::start()
 CReg(t) == /\ pc[t] = "c.reg"                           \* construct the stop callback
@@ -274,12 +280,12 @@ Fwd(t) == /\ pc[t] = "_fwd"
           /\ Go(t, ret[t])
           /\ UNCHANGED <<Mutex, Canc, Stops, Loc, ended, pushSeq, popSeq>>
 
-Step(t) == \/ /\ \/ HLock(t) \/ HTry(t) \/ HUnlock(t) \/ HStop(t) \/ OpEnd(t)
+Step(t) == \/ /\ \/ HLock(t) \/ HTry(t) \/ HUnlock(t) \/ HStop(t)
                  \/ CReg(t) \/ CStopped(t) \/ CbEnd(t) \/ CEarly(t) \/ AfterNested(t) \/ CStarted(t) \/ CSyncSpin(t)
                  \/ V2Try(t) \/ V2Xchg(t) \/ V2Resume(t) \/ V2Rel(t) \/ V2Empty(t) \/ V2Reacq(t)
                  \/ NStop(t) \/ CCompleted(t) \/ CFlag(t) \/ Cleanup(t) \/ SpinWait(t)
               /\ UNCHANGED <<Rec, Tp>>
-           \/ (HWait(t) \/ Fwd(t)) /\ UNCHANGED Tp
+           \/ (HWait(t) \/ Fwd(t) \/ OpEnd(t)) /\ UNCHANGED Tp
            \/ (V2Push(t) \/ V2Push2(t) \/ V2Pop(t) \/ V2Pop2(t) \/ V2Remove(t) \/ V2Remove2(t)) /\ UNCHANGED Rec
 StepF(t) == Step(t) /\ lastT' = t /\ lastPc' = pc[t] /\ UNCHANGED scn
 AllDone == \A t \in Threads : pc[t] = "finished"
